@@ -141,6 +141,7 @@ json_endpoints! {
     fn kib_body(body: String) -> String;
     fn safe_mix(auth_: BearerToken, safe_path: String, unsafe_path: String, safe_query: String, unsafe_query: String, safe_header: String, unsafe_header: String, dnl_query: Option<String>, enum_query: Option<Color>, unsafe_enum_query: Option<Color>) -> ();
     fn safe_body(id: i32, body: Payload) -> i32;
+    fn same_ids(path_word: String, page_token: String, page_size: Option<i32>, secret_word: String, trace_id: String, unsafe_header: Option<i32>) -> ();
     fn enum_map_body(id: i32, body: BTreeMap<Color, StrAlias>) -> ();
     fn safe_enum_map_body(id: i32, body: BTreeMap<Color, Vec<Color>>) -> ();
     fn noop() -> ();
